@@ -19,7 +19,7 @@ RULE = ("case = one generated project (1-4 source files in four size classes, 1-
         "sites biased to scratch writes/renames/post-rename operations, thorough sweeps every k x action. "
         "An evaluation is one faulted run; it is non-trivial when the planned fault actually fired; distinct = distinct "
         "(world, k, action, errno).")
-PROBES = ["aftermath_history", "two_fault_plan", "multi_drain", "kill_with_scratch_open", "fault_after_first_rename", "exdev_rename", "kill_mid_write"]
+PROBES = ["exdev_then_second_event", "aftermath_history", "two_fault_plan", "multi_drain", "kill_with_scratch_open", "fault_after_first_rename", "exdev_rename", "kill_mid_write"]
 ASSUMPTIONS = ["process death = SIGKILL at an operation boundary or inside a write; only what the kernel has survives "
                "(no power-loss model)",
                "the fault-free twin defines the complete updated content (insertion offsets; ID values free)"]
@@ -53,7 +53,7 @@ def evaluate(wm, knobs, plan, ctx, twin=None):
     K = len(twin["res"].ops)
     phm = scen.phases(twin["res"].ops)
     f0 = plan["faults"][0] if plan["faults"] else None
-    phase = scen.phase_of(phm, f0.get("k", 0), K) if f0 else "none"
+    phase = scen.phase_of(phm, f0.get("k", 0), K) if (f0 and f0.get("k")) else ("class:%s" % "+".join(f0.get("kinds", [])) if f0 else "none")
     fcls = scen.fault_class(f0) if f0 else "none"
     if len(plan["faults"]) > 1:
         fcls = "+".join(scen.fault_class(f) for f in plan["faults"])
@@ -122,6 +122,18 @@ def run_case(rng, idx, tier, ctx):
         viols += evaluate(wm, knobs, plan2, ctx, twin)
         ctx.probes["two_fault_plan"] += 1
         ctx.nontrivial.add("%d.2f.%d.%d" % (idx, f1["k"], f2["k"]))
+    # TMPDIR on another filesystem (every rename out of it fails with EXDEV) plus a second event later: an
+    # implementation that falls back to copying must still replace the file atomically
+    exdev = {"from": 1, "kinds": ["RENAME"], "pre": "tmp/", "act": "fail", "errno": "EXDEV"}
+    if first_rename:
+        for _ in range(3 if tier == "quick" else 20):
+            k2 = rng.randrange(first_rename, K + 25)
+            f2 = rng.choice([{"k": k2, "act": "kill_before"}, {"k": k2, "act": "kill_after"},
+                             {"k": k2, "act": "kill_mid", "frac": rng.choice([0.1, 0.5, 0.9])},
+                             {"k": k2, "act": "fail", "errno": rng.choice(["ENOSPC", "EIO"])}])
+            viols += evaluate(wm, knobs, {"seed": base["seed"], "perm": base["perm"], "faults": [exdev, f2]}, ctx, twin)
+            ctx.probes["exdev_then_second_event"] += 1
+            ctx.nontrivial.add("%d.xd.%d.%s" % (idx, k2, f2["act"]))
     # aftermath histories: abnormal run, developer edits (the files get shorter), fault-free run on the same tree and TMPDIR
     ab = [(ph, f) for ph, f in common.candidates(rng, ops, phm, ["kill_before", "kill_after", "kill_mid", "fail"], False)
           if ph in ("scratch-write", "rename", "scratch-open", "after-rename", "read-after-mutation", "lock-write", "scratch-cleanup")]
